@@ -218,6 +218,23 @@ CHECKS = {
               'toy mechanistic model and Gaussian priors (independent value reference + finite differences).'),
         technique='contract-based deductive verification: symbolic execution of the real class against recording stubs, mechanically differentiated specification',
     ),
+    'C15': dict(
+        category='proof',
+        text=('Ghost-RNG law algebra on the symbolically executed real sample methods: PredictiveModel.sample[o, u, s] has, for every pair of '
+              'error models (incl. different parameter counts), exactly the law of output o\'s own error model around the mechanistic output at '
+              'the u-th sorted time with that output\'s parameter slice, independently across entries; PopulationPredictiveModel.sample gives '
+              'each of the requested individuals psi_p, sigma_p with the population law at its covariates (centred, non-centred, log-normal, '
+              'pooled, heterogeneous, covariate-shifted; also when the population model was configured for another number of individuals) and '
+              'measurements Y(psi_p, t) + sigma_p Z with noise of its own.  The pandas / xarray assembly (sample ID, ascending time, '
+              'observable, covariate and dose rows; one joint posterior row per sample across individual- and population-level parameters; '
+              'prior draws; PAM model weights and ID shifting) is a bounded run-time contract on a time-dependent invertible toy model.'),
+        design_ref='DESIGN.md section 4 (C15)',
+        note=('Error models and population models by their C06 contracts (sampler law of ConstantAndMultiplicative... is taken from the model\'s own '
+              'traced sampler: C06 known finding); mechanistic model by contract; 2 samples x 3 unsorted times x 2 outputs in the proof part; the '
+              'table part is bounded (50 configurations, PAM weights statistical with a 5-sigma band at 1500 samples) and never counted as proved.  '
+              'One genuine defect found by this check was repaired (fix commit 2be9c3a).'),
+        technique='contract-based deductive verification with ghost RNG state (law algebra over the symbolically executed real code); bounded run-time contracts for table assembly',
+    ),
     'C16': dict(
         category='proof',
         text=('Ghost-provenance proof: every random draw made by the real code is an atom (stream, call number, entry); for the sample methods '
@@ -253,5 +270,6 @@ CHECK_MODULES = {
     'C11': 'contracts.c11',
     'C12': 'contracts.c12',
     'C13': 'contracts.c13',
+    'C15': 'contracts.c15',
     'C16': 'contracts.c16',
 }
